@@ -1,5 +1,7 @@
 import CatiiProofs.IIndexShift
 import CatiiProofs.IIndexWf
+import CatiiProofs.Append
+import CatiiProofs.FromArray
 /-!
 # C07 — every operation preserves index well-formedness
 
@@ -8,8 +10,9 @@ common value, no empty entry, row ids strictly increasing and below the row coun
 coordinates within the shape, no row under two values of the same column.  `wf` is the decidable
 version the harness evaluates on every real result; `wf_sound` ties the two.
 
-**Partial**: preservation is proved for `shift_common` (any value, and the library-chosen one)
-and `copy`; for the other operations it is checked after every step of every generated history
+**Partial**: preservation is proved for `shift_common` (any value, and the library-chosen one),
+`copy`, `append` (any operands with the same higher shape whose rows fit 32 bits) and construction
+from arrays (`CatiiProps/C01`); for the other operations it is checked after every step of every generated history
 on the real code (`validate(True)` plus the range / arity / non-emptiness conditions) and on the
 model (`wf`), but is not yet a theorem.
 -/
@@ -24,6 +27,11 @@ theorem shift_common_preserves_partial (i : IIndex) (h : WF i) (hnd : i.ndim ≤
     (r : IIndex) (hr : shiftCommon i v = .ok r) : WF r :=
   (shiftCommon_refines i h hnd v r hr).1
 
+/-- `append(other)` preserves well-formedness, for any two common values and any row counts -/
+theorem append_preserves_partial (i other : IIndex) (ok : AppendOK i other) (hnd : i.ndim ≤ 2)
+    (r : IIndex) (hr : append i other = .ok r) : WF r :=
+  (append_refines ok hnd r hr).1
+
 /-- consequence named by the property: after re-encoding nothing is listed under the common value
 and no entry is empty, so the set of listed values contains no category that occurs nowhere -/
 theorem no_phantom_categories (i : IIndex) (h : WF i) (e : Key × Rows) (he : e ∈ i.entries) :
@@ -32,6 +40,8 @@ theorem no_phantom_categories (i : IIndex) (h : WF i) (e : Key × Rows) (he : e 
   exact ⟨r, hr, h.inRange e he r hr, denseAt_of_mem i h e he r _ rfl hr⟩
 
 example : WF ⟨[([1, 0], [0, 2]), ([2, 1], [1])], 0, [3, 2]⟩ := wf_sound _ (by decide)
+example : AppendOK ⟨[([1], [0, 2]), ([2], [1])], 0, [4]⟩ ⟨[([0], [1])], 2, [3]⟩ :=
+  ⟨wf_sound _ (by decide), wf_sound _ (by decide), rfl, by decide⟩
 example : wf ⟨[([5], [])], 0, [3]⟩ = false ∧ wf ⟨[([0], [1])], 0, [3]⟩ = false := by decide
 
 end Catii.C07
